@@ -15,7 +15,7 @@ def explore_combo(combo, max_paths, classify_name):
     check_name, tname, params = combo
     tpl = symfs.templates()[tname]
     fn = getattr(fscheck, check_name)
-    classify = getattr(fscheck, classify_name) if classify_name else None
+    classify = getattr(fscheck, check_name + '_classify', None)          # region predicates of listed findings, per check function
     out = {'combo': combo, 'paths': 0, 'viol': [], 'classes': {}, 'known': {}, 'fidelity': [], 'budget': 0, 'exc': [], 'nonempty': 0, 'links_seen': 0}
     t = time.time()
     rnd = random.Random(hash(repr(combo)) & 0xFFFF)
@@ -145,7 +145,7 @@ def run_property(ctx, combos, classify_name, max_paths, describe_params, known_f
                     continue
                 # classified as a listed region whose finding is not live (fixed or unlisted): treat as a candidate violation
             rep = {'describe': f'{ctx.prop} {check_name} {describe_params(params)} on tree {tree["entries"]}: {msgs[0][:200]}',
-                   'tree': tree,
+                   'tree': tree, 'scandir_order': [x.rpartition('/')[2] for x in tpl.slots],
                    'steps': [{'as': 'v', 'call': 'engine.replayfn.fs_check', 'args': [check_name, '$ROOT', list(params), tpl.cands]}],
                    'assert': 'v == []'}
             common.confirm(ctx, rep)
